@@ -1,4 +1,5 @@
 import OrdModel.Proofs.IndexInsnumLists
+import OrdModel.Proofs.IndexInsnumJubilee
 import OrdModel.Index.Run
 /-
 C05 — inscription numbers, sequence numbers and ids are dense, unique and consistent; jubilee.
@@ -96,6 +97,18 @@ theorem c05_inverse {es : List InsEntry} {i2s : List (InscriptionId × Nat)} {n2
 next blessed (non-negative) number -/
 theorem c05_jubilee_partial (curse : Option Curse) (height jubilee : Nat) (h : height ≥ jubilee) :
     (curse.isSome && !(decide (height ≥ jubilee))) = false := by simp [h]
+
+/-- jubilee, scan level: in a jubilant block (`height ≥ jubilee_height`) no inscription moved or created
+by a transaction carries the `cursed` flag — so by `c05_update_location_partial` (Cursed charm ⇔ negative
+number, and `numberOf st false ≥ 0`) it gets a non-negative number — and only jubilant blocks vindicate -/
+theorem c05_jubilee_scan_partial (cfg : Cfg) (st : State) (txid : Txid) (height totalOut : Nat)
+    (inputs : List (TxIn × UtxoEntry)) (envs : List Envelope) (sc : ScanState)
+    (h : scanInputs cfg st (decide (height ≥ cfg.jubileeHeight)) txid height totalOut inputs 0 { envelopes := envs } = .ok sc) :
+    ∀ f ∈ sc.floating, (height ≥ cfg.jubileeHeight → cursedFlag f = false) ∧
+      (vindicatedFlag f = true → height ≥ cfg.jubileeHeight) := by
+  intro f hf
+  have := scanInputs_jub cfg st _ txid height totalOut inputs 0 _ sc h (by intro g hg; simp at hg) f hf
+  simpa using this
 
 theorem c05_uncursed_number (st : State) : 0 ≤ numberOf st false := by simp [numberOf]
 
